@@ -285,6 +285,9 @@ func runC19(c *ctx) error {
 				break
 			}
 			got := make([]string, nSteps)
+			// a fatal "concurrent map read and map write" cannot be recovered: leave the input where bin/check finds it
+			core.Current(map[string]any{"property": "C19", "what": "16 goroutines, each interpolating its own step of this parsed document",
+				"input": map[string]any{"document": doc.String()}})
 			var wg sync.WaitGroup
 			for i := range pCon.Steps {
 				wg.Add(1)
